@@ -175,7 +175,7 @@ def gcStep (s : St) (n : Node) : St × String :=
   if ¬ s.rub ∨ s.gcp = 0 ∨ ¬ s.flushedSomething then (s, "-") else
   let H := mkHist s.tbl
   let g : GNode := { n := n, gcLast := s.gcLast, lru := s.lru }
-  let r := gcRun H B ⟨s.mtb, s.gcp⟩ g s.prevPersisted (fun _ v => v)
+  let r := gcRun H B { mtb := s.mtb, gcp := s.gcp } g s.prevPersisted (fun _ v => v)
   if r.2.isEmpty then (s, "-") else
   let tgt := (s.persisted - s.mtb) / s.gcp * s.gcp
   let seen := s.acceptedAtFlush / s.gcp - tgt / s.gcp
